@@ -7,6 +7,7 @@ def sub(name, binary, q, t, qsize=100, tsize=100, qw=2, tw=4):
 
 
 PROPS = {
+    "C09": dict(custom="c09", level="fault_enumeration"),
     "C11": dict(
         level="exploration",
         rule=("rapidcheck-generated matrices (shapes 1..8, incl. 1xN/Nx1, dyadic values, random sparsity) driven through "
@@ -24,5 +25,28 @@ PROPS = {
             sub("solve", "c11_matrix", 4000, 150000),
             sub("threads", "c11_matrix", 300, 6000, qw=1, tw=2),
             sub("vecops", "c11_matrix", 8000, 300000),
+        ]),
+    "C16": dict(
+        level="exploration",
+        rule=("rapidcheck-generated regular grids (1-3D, nx 1-12, dx 1e-2..1e2, origins up to 1e4, any rotation, built 4 ways); every node "
+              "and generated probe points (cell + offset with a 1e-4-cell margin, also outside the grid) are converted through every "
+              "rank/indices/coordinates API and compared with the harness's own long-double geometry; derived grids (multiple, divider, "
+              "dilate, coarse, refine, sub-grid, extend, shrink) are located against the parent; non-trivial = >=2 dimensions, an angle "
+              "that is not a multiple of 90 degrees and unequal meshes (plus unequal factors for derived grids, an inside query point "
+              "for point_cell/migrate); distinct = hash of (ndim, nx, quantised dx/x0/angles, kind, flags, factors)"),
+        assumptions=["rotation: right-handed, 2-D counter-clockwise, degrees, order Oz, Oy', Ox''",
+                     "first index varies fastest",
+                     "centered=false: cell of node i is [i,i+1)*dx; centered=true: [i-1/2,i+1/2)*dx",
+                     "points closer than 1e-4 cell to a cell face are not generated (the property excludes boundaries)",
+                     "migrate(grid->points) assigns the corner cell [i,i+1) (code convention; the comment says 'closest node')",
+                     "createFromGridShrink/Extend asserted only where their documentation defines the result"],
+        subs=[
+            sub("rank_indices", "c16_grid", 4000, 60000),
+            sub("idx_coord", "c16_grid", 4000, 60000),
+            sub("rank_coord", "c16_grid", 4000, 60000),
+            sub("point_cell", "c16_grid", 6000, 90000),
+            sub("dbgrid_coord", "c16_grid", 3000, 40000),
+            sub("derived", "c16_grid", 8000, 120000),
+            sub("migrate_g2p", "c16_grid", 4000, 60000),
         ]),
 }
